@@ -133,7 +133,8 @@ def stepD (st : Data) (idx : Nat) (toks : List String) : Data × String :=
       match (kv? rest "dial").bind parseBool?, (kv? rest "alpn").bind parseHex?,
             (kv? rest "host").bind parseHex?, (kv? rest "stream").bind parseHexList? with
       | some dial, some alpn, some host, some stream =>
-        let e : Exchange := { dialOk := dial, host := host, alpn := String.ofList (alpn.map Char.ofNat),
+        let quic := ((kv? rest "quic").bind parseBool?).getD false
+        let e : Exchange := { quic := quic, dialOk := dial, host := host, alpn := String.ofList (alpn.map Char.ofNat),
                               stream := stream, c2s := symC2S idx, s2c := symS2C idx }
         let r := if op = "f.fetch" then fetchData st e else fetchDataOld st e
         match r.out with
@@ -147,6 +148,7 @@ def stepD (st : Data) (idx : Nat) (toks : List String) : Data × String :=
 def step (st : Data × Nat) (toks : List String) : (Data × Nat) × String :=
   match toks with
   | ["f.new"] => (({}, 0), "ok")
+  | ["f.new", "quic"] => (({}, 0), "ok")
   | op :: _ =>
     let idx := if op = "f.fetch" ∨ op = "f.fetchold" then st.2 + 1 else st.2
     let (d, o) := stepD st.1 idx toks
